@@ -1,5 +1,5 @@
 """Registry of the property checks."""
-from . import c01, numsuite as ns
+from . import c01, numsuite as ns, textsuite as ts
 
 COMMON = ["Gx.exec_agree", "Gx.exec_progress", "Gx.eval_congr"]
 
@@ -31,6 +31,22 @@ PROPS = {
               "Gx.C07.bodySlots_congr", "Gx.C07.rlStore_nonstiff", "Gx.C07.rlStore_stiff", "Gx.C07.hybrid_aliases", "Gx.checkScheme_sound"] + COMMON,
              ["Gx.Pins.scheme_aliases"],
              ns.make_run(ns.c07_case, 30, 1200, ns.scheme_cfg), ns.c07_case),
+    "C08": P("GotranxProofs.Properties.C08",
+             ["Gx.C08.seqCheck_pairwise", "Gx.C08.seqCheck_sound", "Gx.C08.sameDefinition_eq", "Gx.C08.sameDefinition_trans",
+              "Gx.C08.sameDefinition_symm"],
+             ["Gx.Pins.grammar_blocks"],
+             ts.c08_run, ts.c08_case),
+    "C09": P("GotranxProofs.Properties.C09",
+             ["Gx.C09.sort_iter_invariant", "Gx.C09.layout_iter_invariant", "Gx.C09.genRhs_iter_invariant", "Gx.C09.genMonitor_iter_invariant",
+              "Gx.C09.genEuler_iter_invariant", "Gx.C09.genGRL_iter_invariant", "Gx.C09.genHybrid_iter_invariant", "Gx.C09.deps_sorted",
+              "Gx.C09.history_invariant", "Gx.C09.emitted_name_history_free", "Gx.sortNames_perm", "Gx.sortByName_perm", "Gx.sortByName_sorted"],
+             ["Gx.Pins.scheme_aliases"],
+             ts.c09_run, ts.c09_case),
+    "C10": P("GotranxProofs.Properties.C10",
+             ["Gx.C10.sortByName_canonical", "Gx.C10.model_of_perm", "Gx.C10.code_of_equal_models", "Gx.C09.sort_iter_invariant",
+              "Gx.C09.layout_iter_invariant", "Gx.sortByName_perm", "Gx.sortByName_sorted"],
+             ["Gx.Pins.grammar_blocks"],
+             ts.c10_run, ts.c10_case),
     "C12": P("GotranxProofs.Properties.C12",
              ["Gx.C12.unused_equiv_rhs", "Gx.C12.removed_never_read", "Gx.C12.mentioned_complete", "Gx.checkRhs_sound_named", "Gx.checkRhs_progress"] + COMMON,
              ["Gx.Pins.removal_flags"],
